@@ -27,6 +27,8 @@ BOUND = {
     "quick": "all subsets of size <=3 of 17 settings x 2 marker values x all 8 argument/path configurations; all alias spellings for subsets <=1",
     "thorough": "all subsets of size <=5 x 2 values x all 8 configurations; alias spellings for subsets <=2",
 }
+# as-built additions to the bound (kept next to BOUND so that the evidence reports them)
+BOUND = {k: v + "; plus: " + 'every setting under 5 header spellings (Capitalised, UPPER, spaced, Title) alone and next to form_id' for k, v in BOUND.items()}
 
 S = {
     "form_title": ["Ti<tle &1", "Other 'title' 2"],
